@@ -61,7 +61,7 @@ func (ct Ciphertext) CopyNew() *Ciphertext {
 }
 
 // Copy copies the input element and its parameters on the target element.
-func (ct Ciphertext) Copy(ctxCopy *Ciphertext) {
+func (ct *Ciphertext) Copy(ctxCopy *Ciphertext) {
 	ct.Element.Copy(&ctxCopy.Element)
 }
 
